@@ -84,7 +84,7 @@ func mapparCmd(args []string) int {
 			return ""
 		}
 		if !explore {
-			e := vsched.Run(body, prefix, 5000, nil)
+			e := vsched.Run(body, prefix, 5000+60*l, nil)
 			c.Execs = 1
 			c.Violation = check(e)
 			c.Schedule = e.Choices
@@ -124,6 +124,16 @@ func mapparCmd(args []string) int {
 				continue
 			}
 			*bound = v[2]
+			if v[2] == -2 {
+				// large slice: the canonical schedule only (capacity / threshold mistakes do not depend on the schedule)
+				c := run(v[0], v[1], nil, false)
+				c.Bound = -2
+				cases = append(cases, c)
+				if c.Violation != "" {
+					rc = 1
+				}
+				continue
+			}
 			c := run(v[0], v[1], nil, true)
 			cases = append(cases, c)
 			if c.Violation != "" {
